@@ -5,11 +5,15 @@ func init() { register("C07", checkC07) }
 func checkC07(p *Program, tier string) *Result {
 	r := newResult("C07")
 	r.Explanation = "R-REPLYCOUNT: forward dataflow over the SSA CFG of every handler entry point in the server universe with abstract state 'set of possible numbers of reply invocations so far' (subset of {0,1,2+}); delegations (static calls, closures, Handler.Handle dispatch to every implementation) are resolved by summaries; an entry point is good iff the state at every return is exactly {1}. " +
-		"R-LOOP (a,b,c,g): in the connection loop, Close is deferred before the first read; every Handle invoke is dominated by the success edges of the stream read and of the session lookup and no error edge reaches it, a write or another read; exactly one Handle invoke lies between two reads."
+		"R-LOOP (a,b,c,g): in the connection loop, Close is deferred before the first read; every Handle invoke is dominated by the success edges of the stream read and of the session lookup and no error edge reaches it, a write or another read; exactly one Handle invoke lies between two reads. R-SEQ: the session lookup applies parity and progression validators whose error edges return (nil, error). R-FRAMING (writer): one Conn.Write per reply, no exit without a write other than nil guards and pad/marshal errors."
 	ruleReplyCount(p, r)
 	r.floor("R-REPLYCOUNT", 18)
 	ruleLoop(p, r, "abcg")
 	r.floor("R-LOOP", 5)
+	// rejection half: the validators are applied (R-SEQ) ; reply half: the writer never drops a marshalable packet
+	ruleSeq(p, r)
+	ruleFramingWriter(p, r)
+	r.floor("R-FRAMING", 4)
 	r.Assumptions = append(r.Assumptions,
 		"each reply invocation puts one packet on the wire provided the reply body marshals; bodies built from configuration values (session authorization arguments) are assumed to marshal",
 		"handlers outside the module (third-party Handler implementations injected through the loader) are not analysed")
